@@ -3,7 +3,7 @@
 # Stores a confirmed seeded change under /verif/seeded/<ID>/ (patch.diff, demo, meta.json).
 set -u
 ID=$1; VER=$2; DET=$3
-S=/tmp/seed-out/$ID; D=/verif/seeded/$ID
+S=${SEED_SRC:-/tmp/seed-out/$ID}; D=/verif/seeded/${SEED_NAME:-$ID}
 mkdir -p $D
 cp $S/patch.diff $D/
 find $S -name 'zz_seed_*' -type f | while read f; do rel=${f#$S/}; mkdir -p $D/$(dirname $rel); cp $f $D/$rel; done
